@@ -166,7 +166,16 @@ func checkC20(c *Ctx) {
 	// ---- R3
 	globID := hopID("pkg/glob", "", "Glob")
 	if f := P.Func("config", "MatchHostPattern"); f == nil {
-		c.Undecided("C20.R3", "config.MatchHostPattern", "function not found")
+		// no wrapper: MatchHost must consult glob.Glob itself (checked below: the latest Glob call before a merge was true and asked about the requested host)
+		okDirect := false
+		if mh := P.Func("config", "(*ClientConfig).MatchHost"); mh != nil && len(callSitesIn(mh, false, globID)) > 0 {
+			okDirect = true
+		}
+		if okDirect {
+			c.OK("C20.R3", "config.MatchHostPattern#delegates", "-", "no wrapper: MatchHost calls glob.Glob directly")
+		} else {
+			c.Undecided("C20.R3", "config.MatchHostPattern", "neither MatchHostPattern nor a direct glob.Glob call in MatchHost was found")
+		}
 	} else {
 		// every return hands back the result of glob.Glob(pattern, input), unchanged
 		okv := true
